@@ -710,12 +710,15 @@ struct FaultyRead {
     fail_at: usize,
     kind: String,
     sticky: bool,
+    /// number of failed calls so far (shared with the driver of the reader)
+    fired: std::rc::Rc<std::cell::Cell<usize>>,
 }
 
 impl std::io::Read for FaultyRead {
     fn read(&mut self, buf: &mut [u8]) -> std::io::Result<usize> {
         self.calls += 1;
         if self.calls == self.fail_at || (self.sticky && self.calls > self.fail_at) {
+            self.fired.set(self.fired.get() + 1);
             return Err(match self.kind.as_str() {
                 "perm" => std::io::Error::from_raw_os_error(13),
                 "invalid" => std::io::Error::new(std::io::ErrorKind::InvalidData, "too many bytes"),
@@ -731,7 +734,9 @@ impl std::io::Read for FaultyRead {
 
 /// Items of the reader of `format` over a `BufReader` around such a stream: like `read_all`, but
 /// the iteration goes on for up to 3 items after the first error, and a panic inside one
-/// `next()` is an item ("panic",) of its own.
+/// `next()` is an item ("panic",) of its own.  A marker item ("fired",) follows every item during
+/// whose `next()` a call of the stream failed; a leading ("ctorfired",) says that a call failed
+/// while the reader was constructed (the JASPAR readers read - and swallow errors - there).
 #[pyfunction]
 #[allow(clippy::too_many_arguments)]
 fn read_faulty(
@@ -744,6 +749,7 @@ fn read_faulty(
     kind: &str,
     sticky: bool,
 ) -> PyResult<Vec<PyObject>> {
+    let fired = std::rc::Rc::new(std::cell::Cell::new(0usize));
     let stream = FaultyRead {
         data: data.as_bytes().to_vec(),
         pos: 0,
@@ -752,9 +758,11 @@ fn read_faulty(
         fail_at,
         kind: kind.to_string(),
         sticky,
+        fired: fired.clone(),
     };
     let mut out: Vec<PyObject> = Vec::new();
     let panic_item = |py: Python| PyTuple::new_bound(py, &["panic".to_object(py)]).to_object(py);
+    let marker = |py: Python, what: &str| PyTuple::new_bound(py, &[what.to_object(py)]).to_object(py);
     macro_rules! drive {
         ($mk:expr, $conv:expr) => {{
             let made = catch_unwind(AssertUnwindSafe(|| $mk));
@@ -767,14 +775,24 @@ fn read_faulty(
             };
             let mut after_error = 0;
             let mut seen_error = false;
-            while out.len() < 60 {
+            let mut seen_fired = fired.get();
+            if seen_fired > 0 {
+                out.push(marker(py, "ctorfired"));
+            }
+            while out.len() < 120 {
                 let r = catch_unwind(AssertUnwindSafe(|| it.next()));
                 match r {
                     Err(_) => {
                         out.push(panic_item(py));
                         seen_error = true;
                     }
-                    Ok(None) => break,
+                    Ok(None) => {
+                        // the end of the iteration is only an item when a call failed on the way
+                        if fired.get() == seen_fired {
+                            break;
+                        }
+                        out.push(marker(py, "stop"));
+                    }
                     Ok(Some(Err(e))) => {
                         out.push(err_item(py, &e));
                         seen_error = true;
@@ -783,6 +801,11 @@ fn read_faulty(
                         let f = $conv;
                         out.push(f(rec)?);
                     }
+                }
+                if fired.get() != seen_fired {
+                    seen_fired = fired.get();
+                    out.push(marker(py, "fired"));
+                    seen_error = true;
                 }
                 if seen_error {
                     after_error += 1;
